@@ -3,9 +3,21 @@ module M = Model
 
 let b2s b = if b then "1" else "0"
 let rec nat_to_int = function M.O -> 0 | M.S k -> 1 + nat_to_int k
+let rec nat_of_int n = if n <= 0 then M.O else M.S (nat_of_int (n - 1))
+
+let c05_k = try int_of_string (Sys.getenv "VERIF_C05_K") with _ -> 6
+let c05_fuel = try int_of_string (Sys.getenv "VERIF_C05_FUEL") with _ -> 400
 
 let run_all (p : M.program) (o : M.output) : string =
+  let accepted = o.M.o_errors = [] in
+  let k = nat_of_int c05_k and fuel = nat_of_int c05_fuel in
   String.concat " "
     [ "C09:" ^ b2s (M.chk_C09 o);
       "C07:" ^ b2s (M.chk_C07 p o);
-      "j07:" ^ string_of_int (nat_to_int (M.judged_C07 p)) ]
+      "j07:" ^ string_of_int (nat_to_int (M.judged_C07 p));
+      "C12:" ^ b2s (M.chk_C12 o);
+      "C10u:" ^ b2s (M.chk_C10_unique o);
+      "C10r:" ^ (if accepted then b2s (M.chk_C10_resolve o) else "-");
+      "C11:" ^ (if accepted then b2s (M.chk_C11 p o) else "-");
+      "C05q:" ^ (if accepted then b2s (M.chk_C05 true k fuel p o) else "-");
+      "C05i:" ^ (if accepted then b2s (M.chk_C05 false k fuel p o) else "-") ]
